@@ -14,6 +14,9 @@ import (
 type SeatOp struct {
 	Kind byte `json:"k"`
 	Seat int  `json:"s"`
+	// Want: on replay, the seat a "join any seat" picked in the recorded run (the manager picks from a
+	// map, so Go's randomised map order decides); 0 = not recorded, otherwise seat+1, -1 = refused
+	Want int `json:"w,omitempty"`
 }
 
 func (o SeatOp) String() string {
@@ -32,6 +35,8 @@ type seatCheckpoint struct {
 	pid    int
 	empty  []bool
 	closed []bool
+	// the seats touched between the last assignment and the checkpoint: a rollback brings those moves back
+	touched []int
 }
 
 func viewSeats(m *sm.SeatManager) []seatView {
@@ -110,6 +115,7 @@ type seatRun struct {
 	watchSeat         int
 	watchPassed       bool
 	justArmed         bool
+	diverged          bool // replay only: a "join any seat" picked another seat than in the recorded run
 	lostDealer        int // dealer seat a restore failed to bring back (-1: none)
 	kept              *seatCheckpoint
 	touched           []int  // seats touched by join/leave/reserve/sit-in since positions were assigned
@@ -172,6 +178,7 @@ func (s *seatRun) apply(op SeatOp) {
 	m := s.m
 	pre := viewSeats(m)
 	s.trace = append(s.trace, op.String())
+	traceAt := len(s.trace) - 1
 	s.rep.Inc("seat_operations")
 	var pan interface{}
 	var err error
@@ -225,7 +232,8 @@ func (s *seatRun) apply(op SeatOp) {
 				}
 				if m.ApplyStates(k) == nil {
 					s.kept = &seatCheckpoint{doc: k, joined: s.joined, pid: s.pid,
-						empty: append([]bool{}, s.emptyAtAssign...), closed: append([]bool{}, s.closedAfterAssign...)}
+						empty: append([]bool{}, s.emptyAtAssign...), closed: append([]bool{}, s.closedAfterAssign...),
+						touched: append(append([]int{}, s.touched...), -1)}
 				}
 			}
 		case 'Y':
@@ -269,6 +277,22 @@ func (s *seatRun) apply(op SeatOp) {
 		return
 	}
 	post := viewSeats(m)
+	if op.Kind == 'J' && op.Seat == -1 {
+		// which seat "any seat" turned out to be is part of the history (it is not a function of the state)
+		got := sid + 1
+		if err != nil {
+			got = -1
+		}
+		s.trace[traceAt] = fmt.Sprintf("J-1>%d", got-1)
+		if err != nil {
+			s.trace[traceAt] = "J-1>x"
+		}
+		if op.Want != 0 && op.Want != got {
+			s.diverged = true
+			s.failed = true
+			return
+		}
+	}
 	switch op.Kind {
 	case 'J':
 		s.onJoin(op, pre, post, sid, err)
@@ -304,7 +328,8 @@ func (s *seatRun) apply(op SeatOp) {
 	if op.Kind == 'Y' {
 		s.watchSeat = -1
 		if s.kept != nil {
-			s.touched = s.touched[:0] // the shadows were rolled back with the state
+			// the shadows were rolled back with the state, and so were the moves made before the checkpoint
+			s.touched = append(s.touched[:0], s.kept.touched...)
 			s.rep.Inc("class_restore_or_reset")
 		} else {
 			s.touched = append(s.touched, -1)
@@ -715,31 +740,31 @@ func genSeatHistory(r *rand.Rand, max int) []SeatOp {
 			if hostileIDs && r.Intn(4) == 0 {
 				seat = r.Intn(max+7) - 3
 			}
-			ops = append(ops, SeatOp{'J', seat})
+			ops = append(ops, SeatOp{Kind: 'J', Seat: seat})
 			if r.Intn(4) != 0 && seat >= 0 && seat < max {
-				ops = append(ops, SeatOp{'S', seat})
+				ops = append(ops, SeatOp{Kind: 'S', Seat: seat})
 			}
 		case k < 10:
 			seat := r.Intn(max)
 			if hostileIDs && r.Intn(4) == 0 {
 				seat = r.Intn(max+7) - 3
 			}
-			ops = append(ops, SeatOp{'L', seat})
+			ops = append(ops, SeatOp{Kind: 'L', Seat: seat})
 		case k < 12:
 			seat := r.Intn(max)
 			if hostileIDs && r.Intn(4) == 0 {
 				seat = r.Intn(max+7) - 3
 			}
 			if r.Intn(2) == 0 {
-				ops = append(ops, SeatOp{'R', seat})
+				ops = append(ops, SeatOp{Kind: 'R', Seat: seat})
 			} else {
-				ops = append(ops, SeatOp{'S', seat})
+				ops = append(ops, SeatOp{Kind: 'S', Seat: seat})
 			}
 		default:
-			ops = append(ops, SeatOp{'N', 0})
+			ops = append(ops, SeatOp{Kind: 'N', Seat: 0})
 		}
 		if r.Intn(60) == 0 {
-			ops = append(ops, SeatOp{[]byte{'X', 'X', 'Z', 'Y', 'Y'}[r.Intn(5)], 0})
+			ops = append(ops, SeatOp{Kind: []byte{'X', 'X', 'Z', 'Y', 'Y'}[r.Intn(5)], Seat: 0})
 		}
 	}
 	return ops
@@ -749,6 +774,16 @@ func parseSeatHistory(text string) []SeatOp {
 	var ops []SeatOp
 	for _, f := range strings.Fields(text) {
 		op := SeatOp{Kind: f[0]}
+		if i := strings.IndexByte(f, '>'); i > 0 {
+			if f[i+1:] == "x" {
+				op.Want = -1
+			} else {
+				var w int
+				fmt.Sscan(f[i+1:], &w)
+				op.Want = w + 1
+			}
+			f = f[:i]
+		}
 		if len(f) > 1 {
 			fmt.Sscan(f[1:], &op.Seat)
 		}
@@ -781,24 +816,24 @@ func runJoinBetween(s *seatRun, r *rand.Rand) {
 	s.rep.Inc("histories")
 	for i := 0; i < max; i++ {
 		if r.Intn(3) != 0 {
-			s.apply(SeatOp{'J', i})
-			s.apply(SeatOp{'S', i})
+			s.apply(SeatOp{Kind: 'J', Seat: i})
+			s.apply(SeatOp{Kind: 'S', Seat: i})
 		}
 	}
 	k := 1 + r.Intn(4)
 	for i := 0; i < k && !s.failed; i++ {
-		s.apply(SeatOp{'N', 0})
+		s.apply(SeatOp{Kind: 'N', Seat: 0})
 		if dealerID(s.m) < 0 {
 			return
 		}
 		if r.Intn(3) == 0 {
-			s.apply(SeatOp{'L', r.Intn(max)})
+			s.apply(SeatOp{Kind: 'L', Seat: r.Intn(max)})
 		}
 	}
 	if s.failed {
 		return
 	}
-	s.apply(SeatOp{'N', 0})
+	s.apply(SeatOp{Kind: 'N', Seat: 0})
 	if s.failed || s.m.Dealer() == nil || s.m.BigBlind() == nil || s.m.GetPlayableSeatCount() < 2 {
 		return
 	}
@@ -815,18 +850,18 @@ func runJoinBetween(s *seatRun, r *rand.Rand) {
 	x := cands[r.Intn(len(cands))]
 	switch r.Intn(6) {
 	case 0: // somebody tries the seat first and leaves again
-		s.apply(SeatOp{'J', x})
+		s.apply(SeatOp{Kind: 'J', Seat: x})
 		if r.Intn(2) == 0 {
-			s.apply(SeatOp{'S', x})
+			s.apply(SeatOp{Kind: 'S', Seat: x})
 		}
-		s.apply(SeatOp{'L', x})
+		s.apply(SeatOp{Kind: 'L', Seat: x})
 	case 1: // the seat is held for somebody first
-		s.apply(SeatOp{'R', x})
+		s.apply(SeatOp{Kind: 'R', Seat: x})
 	}
-	s.apply(SeatOp{'J', x})
-	s.apply(SeatOp{'S', x})
+	s.apply(SeatOp{Kind: 'J', Seat: x})
+	s.apply(SeatOp{Kind: 'S', Seat: x})
 	for h := 0; h < 2*max && !s.failed && s.watchSeat >= 0; h++ {
-		s.apply(SeatOp{'N', 0})
+		s.apply(SeatOp{Kind: 'N', Seat: 0})
 		if s.m.GetPlayableSeatCount() < 2 {
 			return
 		}
@@ -848,14 +883,14 @@ func runCollapse(s *seatRun, r *rand.Rand) {
 	for i, seat := range perm {
 		switch {
 		case i < k:
-			s.apply(SeatOp{'J', seat})
-			s.apply(SeatOp{'S', seat})
+			s.apply(SeatOp{Kind: 'J', Seat: seat})
+			s.apply(SeatOp{Kind: 'S', Seat: seat})
 		case r.Intn(3) == 0:
-			s.apply(SeatOp{'J', seat}) // seated but sitting out
+			s.apply(SeatOp{Kind: 'J', Seat: seat}) // seated but sitting out
 		}
 	}
 	for round := 0; round < 1+r.Intn(3) && !s.failed; round++ {
-		s.apply(SeatOp{'N', 0})
+		s.apply(SeatOp{Kind: 'N', Seat: 0})
 		if s.failed || dealerID(s.m) < 0 {
 			return
 		}
@@ -865,12 +900,12 @@ func runCollapse(s *seatRun, r *rand.Rand) {
 			v := seats[seat]
 			switch {
 			case !v.occ && r.Intn(2) == 0:
-				s.apply(SeatOp{'J', seat})
+				s.apply(SeatOp{Kind: 'J', Seat: seat})
 				if r.Intn(3) != 0 {
-					s.apply(SeatOp{'S', seat})
+					s.apply(SeatOp{Kind: 'S', Seat: seat})
 				}
 			case v.occ && v.res && r.Intn(2) == 0:
-				s.apply(SeatOp{'S', seat})
+				s.apply(SeatOp{Kind: 'S', Seat: seat})
 			}
 		}
 		// the players of this hand leave until about two are left
@@ -881,13 +916,13 @@ func runCollapse(s *seatRun, r *rand.Rand) {
 			keep = 0
 		}
 		for i := keep; i < len(playing); i++ {
-			s.apply(SeatOp{'L', playing[i]})
+			s.apply(SeatOp{Kind: 'L', Seat: playing[i]})
 		}
 	}
 	if !s.failed {
-		s.apply(SeatOp{'N', 0})
+		s.apply(SeatOp{Kind: 'N', Seat: 0})
 	}
 	if !s.failed && r.Intn(2) == 0 {
-		s.apply(SeatOp{'N', 0})
+		s.apply(SeatOp{Kind: 'N', Seat: 0})
 	}
 }
